@@ -163,6 +163,7 @@ def classify(wire, segs):
     return kinds
 
 
+@core.guard
 def judge(case):
     out = core.Outcome()
     if case["kind"] == "bfs":
